@@ -4,13 +4,15 @@ usage: import_seeded.py <id> <worktree> <property> <checks comma> "<what it need
 import json, os, shutil, sys
 VERIF = os.path.dirname(os.path.dirname(os.path.abspath(__file__)))
 sid, wt, prop, checks, needs = sys.argv[1:6]
+ORIGIN = ('written by a fresh sub-agent that saw only the property text and its own scratch worktree of /repo (nothing from /verif)' if '_r' not in sid else
+          'written by a fresh sub-agent that saw the property text, its own scratch worktree of /repo, and one-line descriptions of the changes of the earlier rounds for this property (so as not to repeat them); nothing else from /verif')
 d = os.path.join(VERIF, 'seeded', sid)
 os.makedirs(d, exist_ok=True)
 shutil.copy(os.path.join(wt, '_mutant', 'patch.confirmed.diff'), os.path.join(d, 'patch.diff'))
 shutil.copy(os.path.join(wt, '_mutant', 'demo.cpp'), os.path.join(d, 'demo.cpp'))
 shutil.copy(os.path.join(wt, '_mutant', 'notes.txt'), os.path.join(d, 'notes.txt'))
 json.dump({'id': sid, 'property': prop, 'checks': checks.split(','), 'needs': needs,
-           'origin': 'written by a fresh sub-agent that saw only the property text and its own scratch worktree of /repo (nothing from /verif)',
+           'origin': ORIGIN,
            'confirmed': 'tools/confirm_seeded.sh in the scratch worktree: the 14 buildable test executables pass with the change; demo.cpp exits 1 with the change and 0 without it (g++ -std=c++17 -I<wt>/include demo.cpp <wt>/src/*.cpp -licuuc -licudata)',
            'detected_by': {}}, open(os.path.join(d, 'meta.json'), 'w'), indent=1)
 print('imported', d)
